@@ -69,6 +69,7 @@ type opModel struct {
 type labels map[string]int
 
 type model struct {
+	prevWorkerAttempt map[string]string
 	w        *world
 	tasks    []*taskModel
 	byOp     map[string]*taskModel
@@ -496,6 +497,7 @@ func (m *model) observe() {
 			// redelivery count starts afresh.
 			t.mismatch = 0
 			t.expectInternal = 0
+			t.reissues = 0
 		}
 		t.prevStage = vt.Stage
 		t.prevQueue = vt.QueueName
@@ -537,6 +539,15 @@ func (m *model) observe() {
 	m.checkDedupSnapshot(snap)
 	m.checkTimeouts(snap, now)
 	m.prev = snap
+	// Desired states are shared with the scheduler and are rewritten in
+	// place when a task is retried: remember which attempt each worker
+	// held at the time of this snapshot.
+	m.prevWorkerAttempt = map[string]string{}
+	for _, vw := range snap.Workers {
+		if vw.CurrentTask != nil {
+			m.prevWorkerAttempt[vw.QueueName+"\x00"+vw.Key] = attemptKind(vw.CurrentTask.DesiredState)
+		}
+	}
 }
 
 // checkFinalJustified: C02 "either the ExecuteResponse supplied by the
@@ -710,6 +721,13 @@ func (m *model) onStreamAttached(s *streamSim, name string, now time.Time) {
 	if op == nil {
 		w.failf("C02: stream %d is attached to operation %s, which is not registered", s.id, name)
 	}
+	if op.removed {
+		// An operation that the scheduler has dropped (no-waiter time-out,
+		// completion clean-up) is gone for good: a stream that is still
+		// being attached to it would wait on a task nobody else can see,
+		// and its departure would run the operation's clean-up twice.
+		w.failf("C02/C03: stream %d (%s) was attached to operation %s after the scheduler had removed it", s.id, s.kind, shortName(name))
+	}
 	op.waiters++
 	op.removalAt = time.Time{}
 	t := op.task
@@ -879,6 +897,21 @@ func (m *model) observeSyncs(snap *scheduler.VerifSnapshot, now time.Time) {
 			}
 			newAssignment := !t.attemptWorkers[akey][wk.idx]
 			t.attemptWorkers[akey][wk.idx] = true
+			if newAssignment && m.prev != nil && res.step == w.stepNo {
+				// The scheduler may have assigned this attempt to the
+				// worker in an earlier step without the worker learning
+				// it (its blocked Synchronize was cancelled at the very
+				// moment of the hand-off): then this response is a
+				// re-issue of an existing assignment, not a new one.
+				for _, pw := range m.prev.Workers {
+					if pw.Key == workerKeyOf(wk) && pw.QueueName == m.queueNameOf(wk) && pw.CurrentTask != nil &&
+						len(pw.CurrentTask.Operations) > 0 && m.byOp[pw.CurrentTask.Operations[0].Name] == t && m.prevWorkerAttempt[pw.QueueName+"\x00"+pw.Key] == kind {
+						newAssignment = false
+						t.assigned = wk
+						m.label("reissue_after_lost_response")
+					}
+				}
+			}
 			if len(t.attemptWorkers[akey]) > 1 {
 				w.failf("C01: the %s attempt of task %s was handed to more than one worker: %v", kind, aid, t.attemptWorkers[akey])
 			}
